@@ -47,7 +47,7 @@ def paragraph(state: StateBlock, startLine: int, endLine: int, silent: bool) -> 
 
         nextLine += 1
 
-    content = state.getLines(startLine, nextLine, state.blkIndent, False).strip()
+    content = state.getLines(startLine, nextLine, state.blkIndent, False).strip(" \t")
 
     state.line = nextLine
 
